@@ -107,6 +107,7 @@ type flushRec struct {
 	BeginImg int    `json:"begin_img"`
 	DoneImg  int    `json:"done_img"` // number of images when the call had returned
 	Racing   bool   `json:"racing,omitempty"`
+	Fault    bool   `json:"fault,omitempty"` // the creation of the flush's table file was made to fail
 	Err      string `json:"err,omitempty"`
 	// data flushes: sequence persisted according to the family state after the call
 	PersistSeq int64 `json:"persist_seq"`
